@@ -5,6 +5,14 @@
 set -u
 V=${VERIF_ROOT:-/verif}; R=${REPO_ROOT:-/repo}
 name=$1; src=$2; shift 2; props="$@"
+if [ -n "${SKIP_CONFIRM:-}" ] && [ -f /verif/seeded/$name/meta.json ]; then
+  # re-run the checks only; keep the recorded confirmation
+  suite=$(python3 -c "import json;print(json.load(open('/verif/seeded/$name/meta.json'))['confirmed']['suite_with_change'])")
+  with=$(python3 -c "import json;print(json.load(open('/verif/seeded/$name/meta.json'))['confirmed']['demo_with_change'])")
+  without=$(python3 -c "import json;print(json.load(open('/verif/seeded/$name/meta.json'))['confirmed']['demo_without_change'])")
+  demo_path=$(python3 -c "import json;print(json.load(open('/verif/seeded/$name/meta.json')).get('demo_path',''))")
+  cd $V
+else
 wt=/tmp/seedwt/$name
 rm -rf $wt; mkdir -p /tmp/seedwt
 git -C /repo worktree add -q --detach $wt HEAD || exit 2
@@ -22,6 +30,7 @@ git apply -R $src/patch.diff
 without=$(cd $([ "$pkg" = "-p miniz_oxide" ] && echo miniz_oxide || echo .) && cargo test --offline $([ "$pkg" = "-p miniz_oxide" ] || echo $pkg) $feat --test seeded_demo 2>&1 | grep -E "^test result" | tail -1)
 cd $V
 git -C /repo worktree remove --force $wt
+fi
 echo "suite_with_change: $suite"; echo "demo_with_change: $with"; echo "demo_without_change: $without"
 # now run the checks against the mutated /repo
 git -C $R apply $src/patch.diff || exit 2
